@@ -19,3 +19,62 @@ CHECK = GraphCheck(
     nontrivial=nontrivial,
     deciding=["oracle.C05.conserve"],
 )
+
+
+# ---------------------------------------------------------------- edit histories
+# Conservation under the public edit primitives: in a path-preserving history
+# (single-successor insertions, control insertions, closing) every input block
+# keeps its payload and its successors, each renamed at most to an inserted
+# block or an enclosing region - also after an edit the library refused
+# half-way.
+import random as _random
+
+from .. import attach as _attach
+from ..attach import run_oracle as _run_oracle
+from .base import ShardAcc as _ShardAcc
+from . import c14 as _c14
+
+_plan0 = CHECK.plan
+_run0 = CHECK.run_shard
+
+
+def _plan(tier, seed):
+    shards = _plan0(tier, seed)
+    total = 3000 if tier == "quick" else 100000
+    per = 250 if tier == "quick" else 2500
+    for start in range(0, total, per):
+        shards.append({"kind": "edit_histories", "seed": seed, "start": start, "count": per,
+                       "tier": tier})
+    return shards
+
+
+def _post_edit(ctx, scfg):
+    from ..oracles.conserve import check_conserved
+
+    tr = _attach.track_of(scfg, create=False)
+    if tr is None or not tr.flat or _c14._open_after_refusal(scfg) is not None:
+        return
+    ctx.hit("C05.conservation_after_edit")
+    _run_oracle(ctx, "C05.conserve", check_conserved, tr.orig, tr.blocks, scfg, True, tr.payload)
+
+
+def _run_shard(spec):
+    if spec["kind"] == "edit_histories" or (
+            spec["kind"] == "single" and spec["case"].get("kind") == "history"):
+        _attach.install(("stage", "table"))
+        acc = _ShardAcc("C05")
+        if spec["kind"] == "single":
+            _c14.run_history(spec["case"], acc, _post_edit, False, "C05")
+            return acc.result()
+        for i in range(spec["start"], spec["start"] + spec["count"]):
+            rng = _random.Random(f"c05h/{spec['seed']}/{i}")
+            case = _c14.gen_history(rng)
+            case["mode"] = "pp"
+            case["refusals"] = rng.random() < 0.6
+            _c14.run_history(case, acc, _post_edit, False, "C05")
+        return acc.result()
+    return _run0(spec)
+
+
+CHECK.plan = _plan
+CHECK.run_shard = _run_shard
